@@ -103,6 +103,11 @@ def _q17(ja, jb, jc, pi, force, answer, k):
             if nm in ids and str(ids[nm]) != failed_cmd and ST[js[pr.idx(nm)]] in ("pending", "running"):
                 if table.get(nm) in ("submitted", "running"):
                     return "%s was cancelled but is still shown %s" % (nm, table.get(nm))
+        for nm in sel:
+            if nm in ids and str(ids[nm]) == failed_cmd and ST[js[pr.idx(nm)]] in ("pending", "running"):
+                exp = "submitted" if ST[js[pr.idx(nm)]] == "pending" else "running"
+                if table.get(nm) != exp:
+                    return "the cancel command for %s failed (its job is still %s) but a later status shows it as %s" % (nm, exp, table.get(nm))
         for nm in pr.names:
             if nm not in sel and nm in ids and ST[js[pr.idx(nm)]] in ("pending", "running"):
                 exp = "submitted" if ST[js[pr.idx(nm)]] == "pending" else "running"
